@@ -108,6 +108,8 @@ variable {σ σ' V : Type}
 
 /-- `I'` (on the richer state σ') behaves like `I` when viewed through `π`. -/
 structure Sim (I' : Interp σ' V) (I : Interp σ V) (π : σ' → σ) : Prop where
+  lags : I'.lags = I.lags
+  leads : I'.leads = I.leads
   check : ∀ u t, I'.check u t = I.check (π u) t
   allFinite : I'.allFinite = I.allFinite
   close : I'.close = I.close
@@ -170,29 +172,32 @@ theorem solveT_sim {I' : Interp σ' V} {I : Interp σ V} {π : σ' → σ} (h : 
     (o : Opts) (n : Nat) (t : Int) (w : World σ') :
     ((solveT I' o n t w).1.map π, (solveT I' o n t w).2) = solveT I o n t (w.map π) := by
   unfold solveT
+  rw [h.lags, h.leads]
   split
   · rfl
   · split
     · rfl
     · split
       · rfl
-      · have hseed : π (seed I' o t w.user) = seed I o t (w.map π).user := by
-          unfold seed; split
-          · exact h.copyOffset _ _ _
-          · rfl
-        unfold solveCore
-        rw [← hseed, ← h.check, ← h.allFinite]
-        split
-        · simp only [withUser_map]
-        · have hb := h.before o (seed I' o t w.user) t
-          rw [← hb]
-          rcases hbv : I'.before o (seed I' o t w.user) t with ⟨u2, b⟩
-          cases b with
-          | true => simp only [withUser_map]
-          | false =>
-            simp only
-            rw [← loop_sim h]
-            exact finish_sim π o n t w _
+      · split
+        · rfl
+        · have hseed : π (seed I' o t w.user) = seed I o t (w.map π).user := by
+            unfold seed; split
+            · exact h.copyOffset _ _ _
+            · rfl
+          unfold solveCore
+          rw [← hseed, ← h.check, ← h.allFinite]
+          split
+          · simp only [withUser_map]
+          · have hb := h.before o (seed I' o t w.user) t
+            rw [← hb]
+            rcases hbv : I'.before o (seed I' o t w.user) t with ⟨u2, b⟩
+            cases b with
+            | true => simp only [withUser_map]
+            | false =>
+              simp only
+              rw [← loop_sim h]
+              exact finish_sim π o n t w _
 
 end Simulation
 end Fsic
@@ -202,6 +207,8 @@ section Logged
 variable {σ V : Type} (I : Interp σ V) (o : Opts) (t : Int)
 
 theorem logged_sim : Sim (logged I) I Prod.fst where
+  lags := rfl
+  leads := rfl
   check _ _ := rfl
   allFinite := rfl
   close := rfl
@@ -237,4 +244,402 @@ theorem good_logged (u : σ) (l : List Event) (v0 : V) (k : Nat) :
   unfold Good; rw [cv_logged, cv_logged]; rfl
 
 end Logged
+end Fsic
+
+/-! ### General stepping lemmas (all `errors` modes, non-finite values, raising passes) -/
+namespace Fsic
+section General
+variable {σ V : Type} (I : Interp σ V) (o : Opts) (t : Int)
+
+/-- The vector the solver *holds* after pass `k` (`previous_values` of pass `k+1`): the check vector read after
+    the pass, except that under `errors='replace'` a newly non-finite vector is zero-filled first. -/
+def hv (u0 : σ) (v0 : V) : Nat → V
+  | 0 => v0
+  | k + 1 =>
+    if I.allFinite (hv u0 v0 k) = true ∧ I.allFinite (I.check (traj I o t u0 (k + 1)) t) = false
+        ∧ o.errors = .replace
+    then I.zeroNF (I.check (traj I o t u0 (k + 1)) t)
+    else I.check (traj I o t u0 (k + 1)) t
+
+/-- Pass `i ≥ 1` neither stops the loop nor raises. -/
+def Continues (u0 : σ) (v0 : V) (i : Nat) : Prop :=
+  (I.eval o (traj I o t u0 (i - 1)) t i).2 = false ∧
+  ( I.allFinite (hv I o t u0 v0 (i - 1)) = false
+  ∨ (I.allFinite (hv I o t u0 v0 (i - 1)) = true ∧ I.allFinite (I.check (traj I o t u0 i) t) = false
+      ∧ (o.errors = .ignore ∨ o.errors = .replace) ∧ (i : Int) ≠ o.maxIter)
+  ∨ (I.allFinite (hv I o t u0 v0 (i - 1)) = true ∧ I.allFinite (I.check (traj I o t u0 i) t) = true
+      ∧ ((i : Int) < o.minIter ∨ I.close (I.check (traj I o t u0 i) t) (hv I o t u0 v0 (i - 1)) = false)) )
+
+theorem loop_step_continue (u0 : σ) (v0 : V) (fuel j : Nat) (h : Continues I o t u0 v0 (j + 1)) :
+    loop I o t (fuel + 1) (j + 1) (traj I o t u0 j) (hv I o t u0 v0 j)
+      = loop I o t fuel (j + 2) (traj I o t u0 (j + 1)) (hv I o t u0 v0 (j + 1)) := by
+  obtain ⟨hr, hc⟩ := h
+  simp only [Nat.add_sub_cancel] at hr hc
+  have e1 := eval_eq_of_not_raised I o t u0 j hr
+  rw [loop, e1]
+  simp only
+  rcases hc with h1 | ⟨h1, h2, h3, h4⟩ | ⟨h1, h2, h3⟩
+  · have hh : hv I o t u0 v0 (j + 1) = I.check (traj I o t u0 (j + 1)) t := by
+      simp [hv, h1]
+    simp only [h1, if_true, hh]
+  · rcases h3 with h3 | h3
+    · have hh : hv I o t u0 v0 (j + 1) = I.check (traj I o t u0 (j + 1)) t := by
+        simp [hv, h3]
+      simp only [h1, h2, h3, h4, hh, Bool.true_eq_false, if_false, if_true]
+    · have hh : hv I o t u0 v0 (j + 1) = I.zeroNF (I.check (traj I o t u0 (j + 1)) t) := by
+        simp [hv, h1, h2, h3]
+      simp only [h1, h2, h3, h4, hh, Bool.true_eq_false, if_false, if_true]
+  · have hh : hv I o t u0 v0 (j + 1) = I.check (traj I o t u0 (j + 1)) t := by
+      simp [hv, h2]
+    rcases h3 with h3 | h3
+    · simp only [h1, h2, h3, hh, Bool.true_eq_false, if_false, if_true]
+    · by_cases hm : ((j + 1 : Nat) : Int) < o.minIter
+      · simp only [h1, h2, hm, hh, Bool.true_eq_false, if_false, if_true]
+      · simp only [h1, h2, h3, hm, hh, Bool.true_eq_false, Bool.false_eq_true, if_false]
+
+/-- Skip over a run of continuing passes. -/
+theorem loop_skip (u0 : σ) (v0 : V) :
+    ∀ (d fuel j : Nat), (∀ i, j < i → i ≤ j + d → Continues I o t u0 v0 i) →
+      loop I o t (fuel + d) (j + 1) (traj I o t u0 j) (hv I o t u0 v0 j)
+        = loop I o t fuel (j + d + 1) (traj I o t u0 (j + d)) (hv I o t u0 v0 (j + d)) := by
+  intro d
+  induction d with
+  | zero => intro fuel j _; rfl
+  | succ d ih =>
+    intro fuel j h
+    have h1 := loop_step_continue I o t u0 v0 (fuel + d) j (h (j + 1) (Nat.lt_succ_self _) (by omega))
+    have h2 := ih fuel (j + 1) (fun i hi hi' => h i (by omega) (by omega))
+    have e : fuel + (d + 1) = fuel + d + 1 := by omega
+    rw [e, h1]
+    have e2 : j + 1 + d = j + (d + 1) := by omega
+    rw [e2] at h2
+    exact h2
+
+/-- Stop: a judged, accepted pass. -/
+theorem loop_stop_good (u0 : σ) (v0 : V) (fuel j : Nat)
+    (hr : (I.eval o (traj I o t u0 j) t (j + 1)).2 = false)
+    (h1 : I.allFinite (hv I o t u0 v0 j) = true)
+    (h2 : I.allFinite (I.check (traj I o t u0 (j + 1)) t) = true)
+    (h3 : ¬ ((j + 1 : Nat) : Int) < o.minIter)
+    (h4 : I.close (I.check (traj I o t u0 (j + 1)) t) (hv I o t u0 v0 j) = true) :
+    loop I o t (fuel + 1) (j + 1) (traj I o t u0 j) (hv I o t u0 v0 j) = afterOut I o t u0 (j + 1) := by
+  have e1 := eval_eq_of_not_raised I o t u0 j hr
+  rw [loop, e1]
+  simp only [h1, h2, h3, h4, Bool.true_eq_false, if_false, if_true]
+  rfl
+
+/-- Stop: a newly non-finite check value under a stopping policy. -/
+theorem loop_stop_fault (u0 : σ) (v0 : V) (fuel j : Nat)
+    (hr : (I.eval o (traj I o t u0 j) t (j + 1)).2 = false)
+    (h1 : I.allFinite (hv I o t u0 v0 j) = true)
+    (h2 : I.allFinite (I.check (traj I o t u0 (j + 1)) t) = false) :
+    loop I o t (fuel + 1) (j + 1) (traj I o t u0 j) (hv I o t u0 v0 j) =
+      match o.errors with
+      | .raise => .nonFinite (traj I o t u0 (j + 1)) (j + 1)
+      | .skip => .done (traj I o t u0 (j + 1)) .skipped (j + 1)
+      | .ignore =>
+        if ((j + 1 : Nat) : Int) = o.maxIter then .done (traj I o t u0 (j + 1)) .failed (j + 1)
+        else loop I o t fuel (j + 2) (traj I o t u0 (j + 1)) (I.check (traj I o t u0 (j + 1)) t)
+      | .replace =>
+        if ((j + 1 : Nat) : Int) = o.maxIter then .done (traj I o t u0 (j + 1)) .failed (j + 1)
+        else loop I o t fuel (j + 2) (traj I o t u0 (j + 1)) (I.zeroNF (I.check (traj I o t u0 (j + 1)) t))
+      | .invalid => .badErrors (traj I o t u0 (j + 1)) (j + 1) := by
+  have e1 := eval_eq_of_not_raised I o t u0 j hr
+  rw [loop, e1]
+  simp only [h1, h2, Bool.true_eq_false, if_false, if_true]
+  rfl
+
+/-- Stop: the pass raises. -/
+theorem loop_stop_raise (u0 : σ) (v0 : V) (fuel j : Nat)
+    (hr : (I.eval o (traj I o t u0 j) t (j + 1)).2 = true) :
+    loop I o t (fuel + 1) (j + 1) (traj I o t u0 j) (hv I o t u0 v0 j)
+      = .evalRaised (traj I o t u0 (j + 1)) (j + 1) := by
+  have e1 : I.eval o (traj I o t u0 j) t (j + 1) = (traj I o t u0 (j + 1), true) := Prod.ext rfl hr
+  rw [loop, e1]
+
+/-- A pass that starts from non-finite held values is never judged: whatever it produces, the loop goes on. -/
+theorem loop_unjudged (fuel k : Nat) (u : σ) (prev : V)
+    (hr : (I.eval o u t k).2 = false) (hp : I.allFinite prev = false) :
+    loop I o t (fuel + 1) k u prev
+      = loop I o t fuel (k + 1) (I.eval o u t k).1 (I.check (I.eval o u t k).1 t) := by
+  have e1 : I.eval o u t k = ((I.eval o u t k).1, false) := Prod.ext rfl hr
+  rw [loop, e1]
+  simp only [hp, if_true]
+
+end General
+end Fsic
+
+namespace Fsic
+section Accepted
+variable {σ V : Type} (I : Interp σ V) (o : Opts) (n : Nat) (t : Int) (w : World σ)
+
+/-- The period has room for the model's lags and leads. -/
+def Feasible : Prop := 0 ≤ normT n t - I.lags ∧ normT n t + I.leads < n
+
+/-- Accepted call: `min_iter ≤ max_iter`, a feasible period, and the offset test passes (or `offset = 0`). -/
+def Accepted : Prop :=
+  ¬ o.minIter > o.maxIter ∧ Feasible I n t ∧
+    (o.offset = 0 ∨ (0 ≤ normT n t + o.offset ∧ normT n t + o.offset < n))
+
+theorem solveT_accepted (h : Accepted I o n t) :
+    solveT I o n t w = solveCore I o n t w (seed I o t w.user) := by
+  obtain ⟨h0, ⟨hf1, hf2⟩, h1 | ⟨h2, h3⟩⟩ := h
+  · have hf : ¬ (normT n t - ↑I.lags < 0 ∨ normT n t + ↑I.leads ≥ ↑n) := by omega
+    simp [solveT, h0, hf, h1]
+  · have hf : ¬ (normT n t - ↑I.lags < 0 ∨ normT n t + ↑I.leads ≥ ↑n) := by omega
+    have h2' : ¬ normT n t + o.offset < 0 := by omega
+    have h3' : ¬ normT n t + o.offset ≥ n := by omega
+    simp [solveT, h0, hf, h2', h3']
+
+/-- An accepted call whose starting check values pass the up-front test and whose pre-hook does not raise
+    is the iteration loop followed by the bookkeeping. -/
+theorem solveT_eq_finish (hacc : Accepted I o n t)
+    (hpre : ¬ (o.errors = .raise ∧ I.allFinite (I.check (seed I o t w.user) t) = false))
+    (hb : (I.before o (seed I o t w.user) t).2 = false) :
+    solveT I o n t w =
+      finish o n t w (loop I o t o.maxIter.toNat 1 (I.before o (seed I o t w.user) t).1
+        (I.check (seed I o t w.user) t)) := by
+  rw [solveT_accepted I o n t w hacc]
+  unfold solveCore
+  have hbe : I.before o (seed I o t w.user) t = ((I.before o (seed I o t w.user) t).1, false) :=
+    Prod.ext rfl hb
+  rw [hbe]
+  simp only [hpre, if_false]
+
+end Accepted
+end Fsic
+
+/-! ### Invariants of the user state, and the tracer as a simulation -/
+namespace Fsic
+section Invariant
+variable {σ V : Type} (I : Interp σ V) (o : Opts) (t : Int) (P : σ → Prop)
+
+/-- `P` is preserved by everything the solver can do to the user state. -/
+structure Preserved : Prop where
+  /-- only needed when the call really copies (`offset ≠ 0`) -/
+  copyOffset : o.offset ≠ 0 → ∀ u, P u → P (I.copyOffset u t o.offset)
+  before : ∀ u, P u → P (I.before o u t).1
+  eval : ∀ u k, P u → P (I.eval o u t k).1
+  after : ∀ u k, P u → P (I.after o u t k).1
+
+def LoopOut.user {σ} : LoopOut σ → σ
+  | .done u _ _ => u
+  | .evalRaised u _ => u
+  | .nonFinite u _ => u
+  | .afterRaised u _ => u
+  | .badErrors u _ => u
+
+theorem loop_inv (h : Preserved I o t P) :
+    ∀ (fuel k : Nat) (u : σ) (prev : V), P u → P (loop I o t fuel k u prev).user := by
+  intro fuel
+  induction fuel with
+  | zero => intro k u prev hu; simpa [loop, LoopOut.user] using hu
+  | succ fuel ih =>
+    intro k u prev hu
+    have he := h.eval u k hu
+    unfold loop
+    rcases hev : I.eval o u t k with ⟨u', b⟩
+    rw [hev] at he
+    cases b with
+    | true => simpa [LoopOut.user] using he
+    | false =>
+      simp only
+      have ha := h.after u' k he
+      rcases hav : I.after o u' t k with ⟨u'', b'⟩
+      rw [hav] at ha
+      by_cases c1 : I.allFinite prev = false
+      · simp only [c1, Bool.true_eq_false, Bool.false_eq_true, ↓reduceIte]; exact ih _ _ _ he
+      · simp only [c1, Bool.true_eq_false, Bool.false_eq_true, ↓reduceIte]
+        by_cases c2 : I.allFinite (I.check u' t) = false
+        · simp only [c2, Bool.true_eq_false, Bool.false_eq_true, ↓reduceIte]
+          by_cases c3 : (k : Int) = o.maxIter
+          · cases o.errors <;> simp only [c3, ↓reduceIte, LoopOut.user] <;> exact he
+          · cases o.errors <;> simp only [c3, ↓reduceIte, LoopOut.user] <;>
+              first | exact he | exact ih _ _ _ he
+        · simp only [c2, Bool.true_eq_false, Bool.false_eq_true, ↓reduceIte]
+          by_cases c4 : (k : Int) < o.minIter
+          · simp only [c4, ↓reduceIte]; exact ih _ _ _ he
+          · simp only [c4, ↓reduceIte]
+            by_cases c5 : I.close (I.check u' t) prev = true
+            · simp only [c5, ↓reduceIte]
+              cases b' <;> simpa [LoopOut.user] using ha
+            · simp only [c5, Bool.true_eq_false, Bool.false_eq_true, ↓reduceIte]; exact ih _ _ _ he
+
+theorem stamp_user {σ} (w : World σ) (n : Nat) (t : Int) (s : Status) (k : Int) :
+    (stamp w n t s k).user = w.user := by
+  unfold stamp; cases pyIndex n t <;> rfl
+
+theorem finish_user {σ} (o : Opts) (n : Nat) (t : Int) (w : World σ) (r : LoopOut σ) :
+    (finish o n t w r).1.user = r.user := by
+  cases r <;> simp only [finish, LoopOut.user, stamp_user, withUser]
+  · split <;> simp [stamp_user]
+
+/-- Whatever `solve_t` does, an invariant of all model operations still holds afterwards. -/
+theorem solveT_inv (h : Preserved I o t P) (n : Nat) (w : World σ) (hw : P w.user) :
+    P (solveT I o n t w).1.user := by
+  unfold solveT
+  split
+  · exact hw
+  · split
+    · exact hw
+    · split
+      · exact hw
+      · split
+        · exact hw
+        · have hs : P (seed I o t w.user) := by
+            unfold seed; split
+            · rename_i hoff; exact h.copyOffset hoff _ hw
+            · exact hw
+          unfold solveCore
+          split
+          · exact hs
+          · have hb := h.before _ hs
+            rcases hbv : I.before o (seed I o t w.user) t with ⟨u2, b⟩
+            rw [hbv] at hb
+            cases b with
+            | true => exact hb
+            | false =>
+              simp only
+              rw [finish_user]
+              exact loop_inv I o t P h _ _ _ _ hb
+
+end Invariant
+
+section Traced
+variable {σ V S : Type} (I : Interp σ V) (snap : σ → Int → S)
+
+theorem traced_sim (on : Bool) : Sim (traced I snap on) I Prod.fst where
+  lags := rfl
+  leads := rfl
+  check _ _ := rfl
+  allFinite := rfl
+  close := rfl
+  zeroNF := rfl
+  copyOffset _ _ _ := rfl
+  before o u t := by
+    show (Prod.fst ((traced I snap on).before o u t).1, ((traced I snap on).before o u t).2) = _
+    simp only [traced]
+    rcases h : I.before o u.1 t with ⟨u', b⟩
+    cases b <;> rfl
+  eval o u t k := by
+    simp only [traced]
+    rcases h : I.eval o u.1 t k with ⟨u', b⟩
+    cases b <;> rfl
+  after o u t k := by
+    simp only [traced]
+    rcases h : I.after o u.1 t k with ⟨u', b⟩
+    cases b <;> rfl
+
+end Traced
+end Fsic
+
+/-! ### Status / iterations frame and the period loop of `solve()` -/
+namespace Fsic
+section Frame
+variable {σ V : Type} (I : Interp σ V) (o : Opts) (n : Nat) (t : Int)
+
+/-- Bookkeeping series after `stamp`: either untouched or changed at the one position `t` denotes. -/
+theorem stamp_series {σ} (w : World σ) (s : Status) (k : Int) :
+    ((stamp w n t s k).status = w.status ∧ (stamp w n t s k).iters = w.iters) ∨
+    ∃ i, pyIndex n t = some i ∧ (stamp w n t s k).status = setAt w.status i s
+      ∧ (stamp w n t s k).iters = setAt w.iters i k := by
+  unfold stamp
+  cases h : pyIndex n t with
+  | none => left; exact ⟨rfl, rfl⟩
+  | some i => right; exact ⟨i, rfl, rfl, rfl⟩
+
+/-- `solve_t(t)` changes `status` / `iterations` at most at position `t`. -/
+theorem solveT_series_frame (w : World σ) (j : Nat) (hj : pyIndex n t ≠ some j) :
+    (solveT I o n t w).1.status[j]? = w.status[j]? ∧ (solveT I o n t w).1.iters[j]? = w.iters[j]? := by
+  have key : ∀ (w' : World σ), w'.status = w.status → w'.iters = w.iters → ∀ (s : Status) (k : Int),
+      (stamp w' n t s k).status[j]? = w.status[j]? ∧ (stamp w' n t s k).iters[j]? = w.iters[j]? := by
+    intro w' h1 h2 s k
+    rcases stamp_series n t w' s k with ⟨a, b⟩ | ⟨i, hi, a, b⟩
+    · rw [a, b, h1, h2]; exact ⟨rfl, rfl⟩
+    · have hne : i ≠ j := by intro e; apply hj; rw [hi, e]
+      rw [a, b, h1, h2]
+      exact ⟨setAt_getElem?_ne _ _ _ _ hne, setAt_getElem?_ne _ _ _ _ hne⟩
+  unfold solveT
+  split
+  · exact ⟨rfl, rfl⟩
+  · split
+    · exact ⟨rfl, rfl⟩
+    · split
+      · exact ⟨rfl, rfl⟩
+      · split
+        · exact ⟨rfl, rfl⟩
+        · unfold solveCore
+          split
+          · exact ⟨rfl, rfl⟩
+          · rcases hbv : I.before o (seed I o t w.user) t with ⟨u2, b⟩
+            cases b with
+            | true => exact ⟨rfl, rfl⟩
+            | false =>
+              simp only
+              generalize loop I o t o.maxIter.toNat 1 u2 (I.check (seed I o t w.user) t) = r
+              cases r with
+              | done u s k => simp only [finish]; exact key (withUser w u) rfl rfl _ _
+              | evalRaised u k =>
+                simp only [finish]
+                split
+                · exact key (withUser w u) rfl rfl _ _
+                · exact ⟨rfl, rfl⟩
+              | nonFinite u k => simp only [finish]; exact key (withUser w u) rfl rfl _ _
+              | afterRaised u k => exact ⟨rfl, rfl⟩
+              | badErrors u k => exact ⟨rfl, rfl⟩
+
+theorem solveT_lengths (w : World σ) :
+    (solveT I o n t w).1.status.length = w.status.length ∧ (solveT I o n t w).1.iters.length = w.iters.length := by
+  have key : ∀ (w' : World σ), w'.status = w.status → w'.iters = w.iters → ∀ (s : Status) (k : Int),
+      (stamp w' n t s k).status.length = w.status.length ∧ (stamp w' n t s k).iters.length = w.iters.length := by
+    intro w' h1 h2 s k
+    rcases stamp_series n t w' s k with ⟨a, b⟩ | ⟨i, hi, a, b⟩
+    · rw [a, b, h1, h2]; exact ⟨rfl, rfl⟩
+    · rw [a, b, h1, h2]; exact ⟨setAt_length _ _ _, setAt_length _ _ _⟩
+  unfold solveT
+  split
+  · exact ⟨rfl, rfl⟩
+  · split
+    · exact ⟨rfl, rfl⟩
+    · split
+      · exact ⟨rfl, rfl⟩
+      · split
+        · exact ⟨rfl, rfl⟩
+        · unfold solveCore
+          split
+          · exact ⟨rfl, rfl⟩
+          · rcases hbv : I.before o (seed I o t w.user) t with ⟨u2, b⟩
+            cases b with
+            | true => exact ⟨rfl, rfl⟩
+            | false =>
+              simp only
+              generalize loop I o t o.maxIter.toNat 1 u2 (I.check (seed I o t w.user) t) = r
+              cases r with
+              | done u s k => simp only [finish]; exact key (withUser w u) rfl rfl _ _
+              | evalRaised u k =>
+                simp only [finish]
+                split
+                · exact key (withUser w u) rfl rfl _ _
+                · exact ⟨rfl, rfl⟩
+              | nonFinite u k => simp only [finish]; exact key (withUser w u) rfl rfl _ _
+              | afterRaised u k => exact ⟨rfl, rfl⟩
+              | badErrors u k => exact ⟨rfl, rfl⟩
+
+/-- The period loop over a concatenation: run the first part; go on (from the world and the accumulated
+    results it produced) only if it completed without an exception. -/
+theorem solveList_append (ps qs : List Nat) (w : World σ) (acc : List Nat) (fs : List Bool) :
+    solveList I o n (ps ++ qs) w acc fs =
+      match solveList I o n ps w acc fs with
+      | (w', .ok rp rf) => solveList I o n qs w' rp.reverse rf.reverse
+      | other => other := by
+  induction ps generalizing w acc fs with
+  | nil => simp [solveList]
+  | cons p ps ih =>
+    simp only [List.cons_append, solveList]
+    rcases h : solveT I o n (↑p) w with ⟨w', r⟩
+    cases r with
+    | ret b => simp only; rw [ih]
+    | _ => simp
+
+end Frame
 end Fsic
